@@ -19,7 +19,8 @@ func init() {
 			"(X) 1xx interim statuses never latch a ResponseWriter nor get published as the final status, every final status (incl. 101) does latch — decided by partial evaluation of the status comparisons for representative statuses of each class; " +
 			"(H) every header/trailer copy on the response side is guarded by the hop-by-hop predicate on the same key, and the two hop-by-hop tables equal the RFC 7230 set (+Proxy-Connection); " +
 			"(C) chunked framing is forced on the very response that is serialised, before serialisation; " +
-			"(S) the wrappers forward their own status parameter and their own byte slice; the proxy copies status/body/trailers of the received response.",
+			"(S) the wrappers forward their own status parameter and their own byte slice; the proxy copies status/body/trailers of the received response. " +
+			"(X, second part) for every ResponseWriter implementation WriteHeader(103) followed by WriteHeader(404) is simulated by partial evaluation (field stores of the first call feed the second): the final status must still be forwarded/published, whatever the type of the latch; (R) a retried upload restarts through the refusing rewind (shared with C06.S); (M) no pooled buffers on the response path.",
 		Assumptions: []string{
 			"net/http Response.Write / ReadResponse / ReverseProxy preserve status, header values, body bytes and trailers (stdlib behaviour on run-time values is not analysed)",
 			"statuses are classified by the representative values 100,102,103,150,199 (interim) and 101,200,204,301,304,404,500,599 (final); a comparison against any other constant inside a class is not distinguished",
